@@ -129,7 +129,8 @@ pub fn define(mem: &mut Memory, args: &[GcRef], _env: GcRef, recursion_depth: us
     validate_args!(mem, DEFINE.name, args, (let name: TypeLabel::Symbol), (let value: TypeLabel::Any), (let documentation: TypeLabel::String));    
 
     if mem.is_global_defined(&name.get_name()) {
-        return Err(mem.symbol_for("already-defined"));
+        let details = vec![("symbol", args[0].clone())];
+        return Err(make_error(mem, "already-defined", DEFINE.name, &details));
     }
 
     if let Some(meta) = args[0].get_meta() {
